@@ -342,6 +342,29 @@ class Gen:
             ops.append(("process", rng.choice(self.events), pay, self.val(gids), self.gen_plan()))
         return ops
 
+    def gen_ops_queue_plain(self, md, n):
+        """start / stop / process_event / enqueue_event / execute_queued_events without submissions from behaviours: the
+        histories the specification with a pending list (Spec.sp_qrun) covers"""
+        rng = self.rng
+        gids = self.guard_ids(md)
+        ops = [("enqueue", rng.choice(self.events), 199)] if rng.random() < 0.3 else []
+        ops.append(("start", self.val(gids), []))
+        pay = 200
+        while len(ops) < n:
+            for _ in range(rng.randint(0, 3)):
+                pay += 1
+                ops.append(("enqueue", rng.choice(self.events), pay))
+            x = rng.random()
+            pay += 1
+            if x < 0.35:
+                ops.append(("drain", self.val(gids), []))
+            elif x < 0.45:
+                ops.append(("stop", []))
+                ops.append(("start", self.val(gids), []))
+            else:
+                ops.append(("process", rng.choice(self.events), pay, self.val(gids), []))
+        return ops
+
     def gen_ops_copy(self, md, n, mode="copy", pending=True):
         """histories with several machine objects: object 0 is driven for a while, then copied / assigned / moved /
         saved+loaded into another object at a quiescent point (optionally with events pending in its queue), then both
